@@ -25,6 +25,8 @@ impl Nondet {
         let v = self.next() as u8;
         cid::Cid::new_v1(0x55, multihash::Multihash::<64>::wrap(0x00, &[v]).expect("fits"))
     }
+    /// `len` bytes of a fixed, position-dependent pattern (so loss, duplication and reordering are visible)
+    #[inline(never)] pub fn pattern(&mut self, len: usize) -> Vec<u8> { (0..len).map(|i| (i % 251) as u8).collect() }
     /// a byte vector of the given length whose contents do not matter
     #[inline(never)] pub fn blob(&mut self, len: usize) -> Vec<u8> { vec![0u8; len] }
     /// a fixed, valid peer id identified by `v` (no solver variable)
